@@ -16,11 +16,28 @@ static char const *const TREE_OP_NAMES[] = {"insert", "insert_dup", "remove", "r
 
 template <class NodeT> struct TEntry { NodeT link; int key; int id; };
 static int g_cmp_calls_tree = 0;
+static int g_cmp_style = 0; // 0: -1/0/+1   1: key difference   2: huge magnitudes (only the sign is documented)
+static inline int cmp_result(int a, int b)
+{
+    if (a == b) return 0;
+    switch (g_cmp_style)
+    {
+    default: return (a > b) - (a < b);
+    case 1: return a - b; // keys are small non-negative integers: no overflow
+    case 2: return a > b ? INT_MAX - (a & 1) : INT_MIN + 1 + (b & 1); // never INT_MIN itself: negating a comparator result is common practice
+    }
+}
 template <class NodeT> static int tree_cmp(void const *l, void const *r)
 {
     ++g_cmp_calls_tree;
-    int const a = ((TEntry<NodeT> const *)l)->key, b = ((TEntry<NodeT> const *)r)->key;
-    return (a > b) - (a < b);
+    return cmp_result(((TEntry<NodeT> const *)l)->key, ((TEntry<NodeT> const *)r)->key);
+}
+// lookup by "specified content": the left operand is the caller's probe, here a bare key - not a node
+struct KeyProbe { int key; };
+template <class NodeT> static int probe_cmp(void const *probe, void const *node)
+{
+    ++g_cmp_calls_tree;
+    return cmp_result(((KeyProbe const *)probe)->key, ((TEntry<NodeT> const *)node)->key);
 }
 
 struct AvlTraits
@@ -34,6 +51,7 @@ struct AvlTraits
     static Node *insert(Root *r, Node *n) { return a_avl_insert(r, n, tree_cmp<Node>); }
     static void remove(Root *r, Node *n) { a_avl_remove(r, n); }
     static Node *search(Root const *r, void const *k) { return a_avl_search(r, k, tree_cmp<Node>); }
+    static Node *search_probe(Root const *r, KeyProbe const *k) { return a_avl_search(r, k, probe_cmp<Node>); }
     static Node *head(Root const *r) { return a_avl_head(r); }
     static Node *tail(Root const *r) { return a_avl_tail(r); }
     static Node *next(Node *n) { return a_avl_next(n); }
@@ -57,6 +75,7 @@ struct RbtTraits
     static Node *insert(Root *r, Node *n) { return a_rbt_insert(r, n, tree_cmp<Node>); }
     static void remove(Root *r, Node *n) { a_rbt_remove(r, n); }
     static Node *search(Root const *r, void const *k) { return a_rbt_search(r, k, tree_cmp<Node>); }
+    static Node *search_probe(Root const *r, KeyProbe const *k) { return a_rbt_search(r, k, probe_cmp<Node>); }
     static Node *head(Root const *r) { return a_rbt_head(r); }
     static Node *tail(Root const *r) { return a_rbt_tail(r); }
     static Node *next(Node *n) { return a_rbt_next(n); }
@@ -87,6 +106,7 @@ template <class T> struct TreeSim
     int nclients = 1;
     int U = 16;
     bool precond_failed = false;
+    size_t check_every = 1, check_tick = 0; // big-tree runs: the O(n) structural walk runs on every k-th operation
 
     TreeSim(Ctx &c_, std::string const &p) : c(c_), prop(p), iter_prop(p == "C03"), struct_prop(p != "C03") {}
     ~TreeSim()
@@ -116,7 +136,7 @@ template <class T> struct TreeSim
     }
 
     // ------------------------------------------------------------ structural invariants (C01 / C02)
-    struct Walk { size_t count = 0; bool ok = true; uint64_t shape = FNV0; };
+    struct Walk { size_t count = 0; bool ok = true; uint64_t shape = FNV0; int maxdepth = 0; };
     // returns height (AVL) or black height (RBT); -1000 on failure (c.fail already called unless quiet)
     int walk(Node *n, Node *par, long lo, long hi, Walk &w, char const *site, int depth, bool quiet)
     {
@@ -125,6 +145,7 @@ template <class T> struct TreeSim
         auto bad = [&](char const *cls, char const *fmt, long a, long b) { w.ok = false; if (!quiet) c.fail(cls, site, fmt, a, b); return -1000; };
         if (id < 0) return bad("link-outside-node-pool", "a child link of node %ld points outside the node pool (%ld)", par ? (long)id_of(par) : -1L, 0L);
         if (!resident[(size_t)id]) return bad("link-to-removed-node", "node %ld is reachable from the root but was removed (parent %ld)", (long)id, par ? (long)id_of(par) : -1L);
+        if (depth > w.maxdepth) w.maxdepth = depth;
         if (++w.count > N || depth > 200) return bad("cycle-in-tree", "walk visited more nodes than exist (%ld) or depth %ld", (long)w.count, (long)depth);
         if (T::parent(n) != par) return bad("parent-link-wrong", "node %ld: parent link does not point to the node whose child it is (%ld)", (long)id, par ? (long)id_of(par) : -1L);
         long const k = pool[id].key;
@@ -150,8 +171,9 @@ template <class T> struct TreeSim
         return hl + col;
     }
     // full check; returns false when the run must stop (violation or precondition failure)
-    bool check_struct(char const *site)
+    bool check_struct(char const *site, bool force = false)
     {
+        if (!force && check_every > 1 && (++check_tick % check_every) != 0) return true;
         Walk w;
         bool const quiet = iter_prop;
         walk(root.node, nullptr, LONG_MIN, LONG_MAX, w, site, 0, quiet);
@@ -160,6 +182,7 @@ template <class T> struct TreeSim
         if (w.ok)
         { // identity: every model element reachable (count equal + all reachable resident + keys unique => same set)
             c.st.state(w.shape);
+            if (w.maxdepth >= 16) c.st.add("probe.tree_depth_17_or_more");
             return true;
         }
         if (quiet) { precond_failed = true; c.st.add("n.precondition_failed_malformed_tree"); }
@@ -168,16 +191,45 @@ template <class T> struct TreeSim
     uint64_t struct_hash()
     { // hash over every resident node's three link fields, for "duplicate insert changes nothing"
         uint64_t h = FNV0;
+        if (check_every > 1) return fnv_mix(h, (uint64_t)id_of(root.node) + 2); // big-tree run: the next full walk decides
         for (size_t i = 0; i < N; ++i) if (resident[i]) { h = fnv_mix(h, (uint64_t)id_of(pool[i].link.left) + 2); h = fnv_mix(h, (uint64_t)id_of(pool[i].link.right) + 2); h = fnv_mix(h, (uint64_t)(pool[i].link.parent_ & 3)); h = fnv_mix(h, (uint64_t)id_of(T::parent(&pool[i].link)) + 2); }
         h = fnv_mix(h, (uint64_t)id_of(root.node) + 2);
         return h;
     }
 
     // ------------------------------------------------------------ primitive operations with the model
+    // per-client free / resident lists with O(1) removal (the pools can hold tens of thousands of nodes)
+    std::vector<std::vector<int>> freel, resl;
+    std::vector<int> lpos; // position of a node inside the list it is currently on
+    void list_init()
+    {
+        freel.assign((size_t)nclients, {}); resl.assign((size_t)nclients, {}); lpos.assign(N, 0);
+        for (size_t i = 0; i < N; ++i) { auto &f = freel[i % (size_t)nclients]; lpos[i] = (int)f.size(); f.push_back((int)i); }
+    }
+    void list_move(int id, bool to_resident)
+    {
+        size_t const cl = (size_t)id % (size_t)nclients;
+        auto &from = to_resident ? freel[cl] : resl[cl]; auto &to = to_resident ? resl[cl] : freel[cl];
+        int const p = lpos[(size_t)id], last = from.back();
+        from[(size_t)p] = last; lpos[(size_t)last] = p; from.pop_back();
+        lpos[(size_t)id] = (int)to.size(); to.push_back(id);
+    }
     int free_node(int client, uint64_t start)
     {
-        for (size_t k = 0; k < N; ++k) { size_t i = (size_t)((start + k) % N); if (!resident[i] && (int)(i % (size_t)nclients) == client) return (int)i; }
-        for (size_t k = 0; k < N; ++k) { size_t i = (size_t)((start + k) % N); if (!resident[i]) return (int)i; }
+        for (int k = 0; k < nclients; ++k)
+        {
+            auto &f = freel[(size_t)((client + k) % nclients)];
+            if (!f.empty()) return f[(size_t)(start % f.size())];
+        }
+        return -1;
+    }
+    int resident_node(int client, uint64_t sel)
+    {
+        for (int k = 0; k < nclients; ++k)
+        {
+            auto &f = resl[(size_t)((client + k) % nclients)];
+            if (!f.empty()) return f[(size_t)(sel % f.size())];
+        }
         return -1;
     }
     bool do_insert(int client, uint64_t pick, int key)
@@ -208,7 +260,7 @@ template <class T> struct TreeSim
             if (struct_prop) return c.fail("insert-rejected-new-key", name.c_str(), "inserting the absent key %d returned a node instead of NULL", key);
             precond_failed = true; return false;
         }
-        resident[(size_t)id] = 1; inserted_at[(size_t)id] = ++ins_seq; model[key] = id;
+        resident[(size_t)id] = 1; inserted_at[(size_t)id] = ++ins_seq; model[key] = id; list_move(id, true);
         c.obs(1); c.obs((uint64_t)key);
         return check_struct(name.c_str());
     }
@@ -220,17 +272,25 @@ template <class T> struct TreeSim
         else if (!pool[id].link.left && !pool[id].link.right) c.st.add("probe.remove_leaf");
         c.site(name.c_str());
         T::remove(&root, nd(id));
-        resident[(size_t)id] = 0; model.erase(pool[id].key);
+        resident[(size_t)id] = 0; model.erase(pool[id].key); list_move(id, false);
         poison(id);
         c.obs(2); c.obs((uint64_t)pool[id].key);
         return check_struct(name.c_str());
     }
-    bool do_search(int key)
+    bool do_search(int key, bool bare_key_probe = false)
     {
         Entry probe; memset(&probe, 0, sizeof probe); probe.key = key; probe.id = -1;
         std::string const name = nm("search");
         c.site(name.c_str());
-        Node *r = T::search(&root, &probe);
+        Node *r;
+        if (bare_key_probe)
+        { // the probe lives in an exact-size block: treating it as a node reads past it
+            KeyProbe *kp = (KeyProbe *)malloc(sizeof(KeyProbe)); kp->key = key;
+            r = T::search_probe(&root, kp);
+            free(kp);
+            c.st.add("probe.search_with_bare_key_probe");
+        }
+        else r = T::search(&root, &probe);
         auto it = model.find(key);
         c.st.add(it != model.end() ? "probe.search_present" : "probe.search_absent");
         if (struct_prop)
@@ -265,7 +325,7 @@ template <class T> struct TreeSim
     bool do_iterate()
     {
         if (!iter_prop) return true;
-        if (!check_struct("precondition")) return false;
+        if (!check_struct("precondition", true)) return false;
         std::vector<int> in, nlr, lrn, nrl, rln, got;
         ref_walk(root.node, in, nlr, lrn, nrl, rln);
         size_t const n = in.size(), lim = n + 2;
@@ -330,7 +390,7 @@ template <class T> struct TreeSim
     bool do_tear(Op const &o)
     {
         std::string const name = nm("tear");
-        if (iter_prop && !check_struct("precondition")) return false;
+        if (iter_prop && !check_struct("precondition", true)) return false;
         size_t const n = model.size();
         // snapshot of the children of every node at tear start (reference structure)
         std::vector<int> lc(N, -1), rc(N, -1);
@@ -391,6 +451,7 @@ template <class T> struct TreeSim
         T::root_init(&root);
         for (size_t i = 0; i < N; ++i) if (resident[i]) { resident[i] = 0; if (!yielded[i]) poison((int)i); }
         model.clear();
+        list_init();
         return true;
     }
     bool observe_remaining(std::vector<char> const &yielded, size_t expect, char const *site)
@@ -417,6 +478,7 @@ template <class T> struct TreeSim
     {
         uint64_t const v0 = (uint64_t)(o.a[0] < 0 ? -o.a[0] : o.a[0]);
         size_t n = 2 + (size_t)((uint64_t)(o.a[1] < 0 ? -o.a[1] : o.a[1]) % 40);
+        if (check_every > 1 && (v0 % 8) < 3) n = N; // big-tree run: a filling burst fills the pool
         int const start = (int)((uint64_t)(o.a[2] < 0 ? -o.a[2] : o.a[2]) % (uint64_t)U);
         int const kind = (int)(v0 % 8);
         c.st.add(std::string("probe.burst_kind_") + std::to_string(kind));
@@ -463,14 +525,17 @@ template <class T> struct TreeSim
     // ------------------------------------------------------------ interpreter
     void exec(Plan const &p)
     {
-        N = (size_t)std::max<int64_t>(1, std::min<int64_t>(2048, p.knob("nodes", 32)));
+        N = (size_t)std::max<int64_t>(1, std::min<int64_t>(200000, p.knob("nodes", 32)));
         U = (int)std::max<int64_t>(1, std::min<int64_t>(100000, p.knob("universe", 16)));
         nclients = (int)std::max<int64_t>(1, std::min<int64_t>(4, p.knob("clients", 1)));
+        g_cmp_style = (int)(p.knob("cmpstyle", 0) % 3);
+        check_every = (size_t)std::max<int64_t>(1, p.knob("check_every", 1));
         if (posix_memalign((void **)&pool, 64, sizeof(Entry) * N) != 0) abort();
         memset(pool, 0xCD, sizeof(Entry) * N);
         resident.assign(N, 0); inserted_at.assign(N, 0);
         for (size_t i = 0; i < N; ++i) { pool[i].id = (int)i; pool[i].key = -1; poison((int)i); }
         T::root_init(&root);
+        list_init();
         for (size_t i = 0; i < p.ops.size() && c.ok() && !precond_failed; ++i)
         {
             Op const &o = p.ops[i];
@@ -486,17 +551,29 @@ template <class T> struct TreeSim
             {
                 if (model.empty()) { do_insert(client, a1, (int)(a0 % (uint64_t)U)); break; }
                 auto it = model.begin(); std::advance(it, (long)(a0 % model.size()));
+                if ((o.a[2] & 3) == 0)
+                { // the element offered is the resident object itself: "changes nothing and returns the resident element"
+                    std::string const name = nm("insert");
+                    uint64_t const before = struct_hash();
+                    c.site(name.c_str());
+                    Node *r = T::insert(&root, nd(it->second));
+                    c.st.add("probe.duplicate_insert_same_object");
+                    if (struct_prop)
+                    {
+                        if (r != nd(it->second)) { c.fail("duplicate-insert-wrong-result", name.c_str(), "re-inserting the resident element with key %d returned %s", it->first, r ? "another node" : "NULL"); break; }
+                        if (struct_hash() != before) { c.fail("duplicate-insert-changed-tree", name.c_str(), "re-inserting the resident element with key %d modified the tree", it->first); break; }
+                    }
+                    check_struct(name.c_str());
+                    break;
+                }
                 do_insert(client, a1, it->first);
                 break;
             }
             case T_REMOVE:
             {
                 if (model.empty()) break;
-                // the client's own k-th resident node, falling back to any resident node
-                std::vector<int> own, any;
-                for (size_t j = 0; j < N; ++j) if (resident[j]) { any.push_back((int)j); if ((int)(j % (size_t)nclients) == client) own.push_back((int)j); }
-                std::vector<int> &from = own.empty() ? any : own;
-                do_remove_id(from[(size_t)(a0 % from.size())]);
+                // one of the client's own resident nodes, falling back to another client's
+                do_remove_id(resident_node(client, a0));
                 break;
             }
             case T_REMOVE_FOUND:
@@ -510,7 +587,7 @@ template <class T> struct TreeSim
                 if (it != model.end() && r == nd(it->second)) do_remove_id(it->second);
                 break;
             }
-            case T_SEARCH: do_search((int)(a0 % (uint64_t)(U + 2)) - 1); break;
+            case T_SEARCH: do_search((int)(a0 % (uint64_t)(U + 2)) - 1, (a1 & 1) != 0); break;
             case T_BURST: do_burst(o); break;
             case T_ITER: do_iterate(); break;
             case T_TEAR: do_tear(o); break;
@@ -519,6 +596,7 @@ template <class T> struct TreeSim
             ++c.steps;
             c.obs((uint64_t)o.kind); c.obs(model.size());
         }
+        if (c.ok() && !precond_failed && check_every > 1) check_struct("end-of-history", true);
         // end of history: always iterate and tear (C03), and leave nothing resident
         if (c.ok() && !precond_failed && iter_prop)
         {
@@ -547,6 +625,12 @@ struct TreeEngine : Engine
         p.set("nodes", r.pick(NN));
         p.set("universe", r.pick(UU));
         p.set("clients", (int64_t)r.range(1, 4));
+        p.set("cmpstyle", (int64_t)r.below(3));
+        bool const big = r.chance(1, 400);
+        if (big)
+        { // a rare deep-tree configuration: tens of thousands of elements, structural walk on every 4096th operation
+            p.set("nodes", 70000); p.set("universe", 100000); p.set("check_every", 4096); p.set("clients", 1);
+        }
         bool en[T__COUNT];
         for (int k = 0; k < T__COUNT; ++k) en[k] = r.chance(1, 2);
         en[T_INSERT] = true;
@@ -561,12 +645,13 @@ struct TreeEngine : Engine
             if (prop == "C03" && (k == T_TEAR)) w = 2;
             for (int j = 0; j < w; ++j) kinds.push_back(k);
         }
-        int64_t const nops = r.geolen(8, 400);
+        int64_t const nops = big ? r.range(2, 12) : r.geolen(8, 400);
         for (int64_t i = 0; i < nops; ++i)
         {
             Op o; o.kind = kinds[r.below(kinds.size())];
             o.client = (int)r.below(4);
             for (int k = 0; k < 4; ++k) o.a[k] = (int64_t)r.below(100000);
+            if (big && i == 0) { o.kind = T_BURST; o.a[0] = (int64_t)r.below(3); o.a[2] = 0; } // ascending / descending / zig-zag fill
             p.ops.push_back(o);
         }
         return p;
@@ -578,7 +663,7 @@ struct TreeEngine : Engine
         else { TreeSim<RbtTraits> s(c, p.prop); s.exec(p); }
         return c.result();
     }
-    std::vector<KnobShrink> shrinkable_knobs() const override { return {{"clients", 1}, {"nodes", 1}, {"universe", 1}}; }
+    std::vector<KnobShrink> shrinkable_knobs() const override { return {{"clients", 1}, {"nodes", 1}, {"universe", 1}, {"cmpstyle", 0}, {"check_every", 1}}; }
     std::vector<std::string> components(std::string const &prop) const override
     {
         if (prop == "C01") return {"REAL: src/avl.c, include/a/avl.h", "STUB: none (intrusive container, node storage is a harness pool; comparator is a harness function)"};
